@@ -129,7 +129,7 @@ class ZemaxFileReader:
         """
         Reads the Zemax file and extracts the optical data.
         """
-        encodings = ['utf-16', 'utf-8']
+        encodings = ['utf-16', 'utf-8-sig']
         success = False
         for encoding in encodings:
             try:
